@@ -200,6 +200,18 @@ impl Block for SymbolSync {
             self.stream_pos += 1.0;
             // Stay around zero so that we don't lose float precision.
             let step_back = 10.0 * self.clock;
+            if self.stream_pos - self.last_sym_boundary_pos > 1_048_576.0 {
+                // No transition for a million samples: that boundary says
+                // nothing about the symbol clock any more, but it blocks the
+                // step back below. The positions would grow until an f32
+                // stops counting (2^24) and the assert above fires on the
+                // next transitions. Forget it (0 means "no boundary yet") and
+                // bring the other two positions back, keeping their distance.
+                let shift = self.stream_pos - step_back;
+                self.stream_pos -= shift;
+                self.next_sym_middle -= shift;
+                self.last_sym_boundary_pos = 0.0;
+            }
             if self.stream_pos > step_back
                 && self.last_sym_boundary_pos > step_back
                 && self.next_sym_middle > step_back
